@@ -160,6 +160,9 @@ def build(tier, seed):
     plain = [("^0{4}$", ["0000", "0{4}", "00000", "000"]), ("-{2,}", ["--", "-{2,}", "-", "a---b"]), ("abc", ["abc", "xabcx", "ab", "ABC"]), ("^abc$", ["abc", "xabc", "abcx"]),
              ("a.c", ["abc", "a.c", "ac", "a\nc"]), ("^a|b$", ["a", "b", "ax", "xb", "x"]), ("a{2}", ["aa", "a{2}", "a"]), ("^$", ["", " ", "a"]), ("a+", ["a", "a+", "b"]),
              ("^a?$", ["", "a", "a?", "aa"]), ("a\\.b", ["a.b", "axb", "a\\.b"]), ("(ab)", ["ab", "(ab)"]), ("[ab]", ["a", "[ab]", "c"]), ("a*", ["", "b"]), ("^.$", ["a", "ab", "ß", ""])]
+    # patterns whose "equivalent" rewrites differ only on values with line breaks / at the edges (`.` does not match \n; `$` vs `\z`; leading `.*`)
+    plain += [(".*@x\\.y", ["a@x.y", "l1\nb@x.y", "l1\nl2", "@x.y\n"]), (".*b$", ["ab", "a\nb", "b\n", "a\nb\n"]), ("^a.*z$", ["az", "a\nz", "a-z"]), (".+", ["", "\n", "a", "\na"]),
+              ("^\\w+$", ["ab_1", "ab\n", "é", "a b"]), ("(?s).*end", ["x\nend", "end"]), ("a$", ["a", "a\n", "ba"])]
     for pat, probes in plain:
         for form in ("literal", "raw", "static"):
             d = new(inner_string(), "regex:plain-text-looking:" + form)
@@ -294,6 +297,28 @@ def build(tier, seed):
         if "Clone" in attrs and cls == "repeated-derive":
             d.derives = ["Debug"]
             d.tags.append("needs=Debug+Clone")
+    # `finite` at every position relative to two literal bounds (a rule that looks redundant next to bounds must still be enforced: NaN passes both comparisons)
+    for ty in ("f32", "f64"):
+        for order in itertools.permutations(("lower", "upper", "finite")):
+            for (lk, uk) in (("greater_or_equal", "less_or_equal"), ("greater", "less")):
+                d = new(inner_float(ty), "layout:finite-position:%s" % "-".join(order))
+                for k in order:
+                    if k == "finite":
+                        d.vals.append(Vld("finite"))
+                    elif k == "lower":
+                        d.vals.append(Vld(lk, "0.0", float_denote(ty, Fraction(0))))
+                    else:
+                        d.vals.append(Vld(uk, "1.0", float_denote(ty, Fraction(1))))
+    # built-in string sanitizers, alone and combined, on inputs where a "nothing to do" shortcut is wrong (titlecase letters, vertical tab, final sigma)
+    for sl in (["lowercase"], ["uppercase"], ["trim"], ["trim", "lowercase"], ["uppercase", "trim"], ["lowercase", "trim"]):
+        for with_val in (False, True):
+            d = new(inner_string(), "san:builtin:" + "+".join(sl))
+            for s_ in sl:
+                d.sans.append(San(s_))
+            if with_val:
+                d.vals.append(Vld("len_char_max", "12", 12))
+            for pr in ("ǅ", "ǅungla", "ᾈ", "ǲ", "\x0bab\x0b", " \x0b ", "\x0c", "ΟΔΥΣΣΕΥΣ", "ΣΑΣ ΣΑΣ", "İ", "ß", "ﬁ", "ǅA", "aǅ"):
+                d.tags.append("probe=" + pr)
     # built-in validators mixed with `with`/`error` (normally refused): if accepted, every written rule must be enforced
     for fam, inner, bound_txt, kind, den, cond in (("int", inner_int("i32"), "100", "less_or_equal", 100, "*x != 13"), ("float", inner_float("f64"), "100.0", "less_or_equal", None, "*x != 13.0"),
                                                    ("string", inner_string(), "4", "len_char_max", 4, "x.len() != 2")):
